@@ -250,6 +250,17 @@ pub fn run(ctx: &Ctx) {
     });
     ctx.part_done("mass-unrecognised", false, json!({"probes": jobs * PROBES_PER_JOB, "what": "distinct frames of types 1..=7 with 3..=8 data bytes, each judged by the table (unknown wrapping the same frame)"}));
 
+    // with a logger installed at Trace level
+    crate::engine::with_logging(|| {
+        run_generated(
+            ctx,
+            "generated+logging",
+            ctx.tier.pick(40_000, 400_000),
+            || (frame_strategy(), 0u8..=7).prop_map(|(mut f, t)| { f.ty = t; f }),
+            |c, st| check_frame(c, st),
+        );
+    });
+
     // generated frames (any type, any data) -------------------------------------------------
     run_generated(
         ctx,
@@ -275,7 +286,10 @@ pub fn run(ctx: &Ctx) {
     );
 }
 
-pub fn replay(_part: &str, case: &Value) -> Result<(), String> {
+pub fn replay(part: &str, case: &Value) -> Result<(), String> {
     let c: FrameCase = serde_json::from_value(case.clone()).map_err(|e| format!("bad case: {e}"))?;
+    if part.ends_with("+logging") {
+        return crate::engine::with_logging(|| check_frame(&c, &mut Stats::new()));
+    }
     check_frame(&c, &mut Stats::new())
 }
